@@ -379,7 +379,8 @@ func (ss *SortedSet) searchReverse(nodes []*SortedSetNode, excludeStart, exclude
 		}
 	}
 
-	for x != nil && limit > 0 {
+	// x is still the header when every member scores above the range: the header is not a member
+	for x != nil && x != ss.header && limit > 0 {
 		if excludeStart {
 			if x.score <= start {
 				break
@@ -519,7 +520,7 @@ func (ss *SortedSet) FindRank(key string) int {
 				x = x.level[i].forward
 			}
 
-			if x.key == key {
+			if x != ss.header && x.key == key {
 				return rank
 			}
 		}
